@@ -63,10 +63,10 @@ def check(ctx, cases):
 
 def run(ctx):
     thorough = ctx.tier == "thorough"
-    invs = ["RoundTrip", "StrongestWins", "KeywordDoesNotStick"]
+    invs = ["RoundTrip", "StrongestWins", "KeywordDoesNotStick", "KeywordSilencesRelated"]
     ctx.tlc("Config", {"Fault": "none", "EmitCases": False, "MaxSet": 2}, invariants=invs, coverage=True)
     ctx.require_actions(["ChooseCodec", "ChooseScenario", "Create", "Assign", "Parse", "ParseAgain"])
-    for fault in ("kw_loses", "assign_ignored", "kw_sticks"):
+    for fault in ("kw_loses", "assign_ignored", "kw_sticks", "related_attr_wins"):
         ctx.tlc("Config", {"Fault": fault, "EmitCases": False, "MaxSet": 1}, invariants=invs,
                 expect_violation=fault, count=False)
     res = ctx.tlc("Config", {"Fault": "none", "EmitCases": True, "MaxSet": 2}, invariants=["EmitCodec", "EmitScn"],
